@@ -963,14 +963,15 @@ func (m *Manager) recoverFromWAL() error {
 
 	// Add recovered memtables to the pool
 	for i, memTable := range memTables {
-		if i == len(memTables)-1 {
-			// The last memtable becomes the active one
-			m.memTablePool.SetActiveMemTable(memTable)
-		} else {
+		if i < len(memTables)-1 {
 			// Previous memtables become immutable
 			memTable.SetImmutable()
 			m.immutableMTs = append(m.immutableMTs, memTable)
 		}
+		// Hand every table to the pool in log order: the pool moves the
+		// previous one to its immutable list, so all of them stay readable
+		// and the last memtable becomes the active one
+		m.memTablePool.SetActiveMemTable(memTable)
 	}
 
 	// Record recovery stats
